@@ -269,7 +269,8 @@ Emit == stage = "done" => PrintT(<<"CASE", ToJson([pat |-> pat, alts |-> alts, g
                                                     why |-> verdict.why])>>)
 SomeMatch == ~(stage = "done" /\ verdict.decl /\ mut # "none")
 NoDevs == {}
-RealDevs == {"or_merge_drops", "or_commits_first"}
+\* "or_merge_drops" was real on the pinned tree and is fixed in /repo (fix: merging a successful OR alternative ...)
+RealDevs == {"or_commits_first"}
 AllFeatures == {"attr", "flags", "optional", "or"}
 BasicFeatures == {"or"}
 AllOps == Ops
